@@ -2,6 +2,7 @@ package harness
 
 import (
 	"fmt"
+	"strings"
 	"testing"
 	"time"
 
@@ -117,6 +118,18 @@ func execSeq(t *testing.T, plan *Plan, h seqHooks) *Outcome {
 					if h.restarted != nil {
 						h.restarted(e, st, before, e.engine.Catalog())
 					}
+					if h.model && !e.failed() {
+						// the reopened database must still be the one the model describes
+						e.syncModel(st, -1)
+						if d := compareState(st, e.engine.Catalog()); d != "" {
+							v := attributeRestart(h.prop, "after a clean restart: "+d)
+							e.violate(v)
+							if v.Prop == h.prop {
+								return
+							}
+							*st = *modelFromCatalog(e.engine.Catalog())
+						}
+					}
 					continue
 				}
 				before := e.engine.Catalog()
@@ -129,6 +142,25 @@ func execSeq(t *testing.T, plan *Plan, h seqHooks) *Outcome {
 				if c.Panic != nil {
 					e.violate(violation("C20", "panic", "", fmt.Sprintf("%s panicked: %v", opStr(op), c.Panic)))
 					return
+				}
+				if h.model && op.Wide && classifyErr(c.Err) != "store-fault" {
+					// outside the reference model's operator domain: the model-free oracles judge the call (the
+					// commit monitors have already seen it); a failing call must not leave a trace, and the
+					// model continues from the implementation's state
+					e.probe("wide-update")
+					if c.Err != nil {
+						e.probe("wide-update-failed")
+						if b, a := catalogDump(before, true), catalogDump(after, true); a != b {
+							e.violate(violation("C02", "failed-write-left-trace", op.K, fmt.Sprintf("%s returned %v but changed the database:\n--- before\n%s--- after\n%s", opStr(op), c.Err, b, a)))
+							return
+						}
+					}
+					e.syncModel(st, -1)
+					*st = *modelFromCatalog(after)
+					if h.after != nil {
+						h.after(e, st, op, c, before, after)
+					}
+					continue
 				}
 				if h.model {
 					if classifyErr(c.Err) == "store-fault" {
@@ -159,13 +191,20 @@ func execSeq(t *testing.T, plan *Plan, h seqHooks) *Outcome {
 						want = applyModel(st, op, &c.Res, now, lastIDOf(after, op))
 					}
 					e.syncModel(st, -1)
+					var mismatch *Violation
 					if d := diffRes(op.K, want, c.Res); d != "" {
-						e.violate(attribute(h.prop, "result-mismatch", op, want, c.Res, fmt.Sprintf("%s: %s (impl error: %v)", opStr(op), d, c.Err)))
-						return
+						mismatch = attribute(h.prop, "result-mismatch", op, want, c.Res, fmt.Sprintf("%s: %s (impl error: %v)", opStr(op), d, c.Err))
+					} else if d := compareState(st, after); d != "" {
+						mismatch = attribute(h.prop, "state-mismatch", op, want, c.Res, fmt.Sprintf("after %s: %s", opStr(op), d))
 					}
-					if d := compareState(st, after); d != "" {
-						e.violate(attribute(h.prop, "state-mismatch", op, want, c.Res, fmt.Sprintf("after %s: %s", opStr(op), d)))
-						return
+					if mismatch != nil {
+						e.violate(mismatch)
+						if mismatch.Prop == h.prop {
+							return
+						}
+						// a disagreement that another property's check decides: note it, let the model continue
+						// from the implementation's state and keep looking for violations of this property
+						*st = *modelFromCatalog(after)
 					}
 				}
 				if h.after != nil {
@@ -208,6 +247,23 @@ func isIndexOp(k string) bool {
 		return true
 	}
 	return false
+}
+
+// attributeRestart: a database that differs after closing and reopening is
+// C06's; differences in index definitions also belong to the index (C15) and
+// TTL (C19) properties when their checks see them.
+func attributeRestart(prop, detail string) *Violation {
+	if strings.Contains(detail, "index") {
+		switch prop {
+		case "C15":
+			return violation("C15", "indexes-differ-after-reload", "", detail)
+		case "C19":
+			return violation("C19", "ttl-index-definition", "after-reload", detail)
+		case "C07":
+			return violation("C07", "unique-index-lost-after-reload", "", detail)
+		}
+	}
+	return violation("C06", "reload-differs", "model", detail)
 }
 
 // attribute decides which property a model mismatch belongs to. C01 owns all
